@@ -3,6 +3,9 @@
     whitespace splitting); node and timestamp fields are decimal integers. *)
 From DynVerif Require Import Base Graph Annotate IO.
 From DynVerif.proofs Require Import AnnotateFacts IOFacts.
+From DynVerif Require Import Derived Stats PySupportStats.
+From DynVerif.gen Require Import PyGenStats.
+From DynVerif.proofs Require Import PyGenStatsEq.
 
 (** empty and comment-only lines are skipped; text after the comment marker is ignored *)
 Theorem C18_comments : forall m d l rest,
@@ -56,6 +59,13 @@ Theorem C18_keys : forall dir m d ls,
   read_snapshots_text dir m d false ls = read_snap_lines m d None (empty_graph dir true) ls.
 Proof. intros. unfold read_snapshots_text. split; [intros ->; reflexivity|reflexivity]. Qed.
 Print Assumptions C18_keys.
+
+(** source-level tie: the Gallina text GENERATED from utils.transform.compact_timeslot (regenerated from /repo on every run) is the
+    model function on duplicate-free lists (timestamps of a file are collected into a set first); with duplicates the dict
+    comprehension keeps the LAST index of a value, the model one entry per position ([py_compact_timeslot_dup]) *)
+Theorem C18_source_text : forall l, NoDup l -> py_compact_timeslot l = compact_timeslot l.
+Proof. exact py_compact_timeslot_eq. Qed.
+Print Assumptions C18_source_text.
 
 Example C18_example :
   compact_timeslot [40; 7; 19] = [(7, 0); (19, 1); (40, 2)] /\
